@@ -86,13 +86,14 @@ def scenarios(tier):
                     bounds={"readouts": 3, "leading": "tail of a readout (reader joined mid-transmission)", "free_digits": 2 if q else 3, "splittings": "every single cut" + ("" if q else ", a grid of cut pairs") + ", line by line"},
                     domains=("p1",), frontier=4, assumptions=A, replay_cap=40)]
     sweep = [(104, 104, 20), (104, 103, 0), (256, 257, 0), (1000, 999, 7), (3000, 7000, 11), (4800, 1000, 0)] if q else \
-            [(s, c, o) for s in (60, 104, 256, 1000, 3000, 4500, 4800, 6000, 7500) for c, o in ((s, 20), (s - 1, 0), (s + 1, 0), (7, 0), (64, 0), (4096, 1), (1000, 0), (6000, 0), (7000, 11), (8190, 3), (8191, 0), (8192, 5), (10000, 0))]
+            [(s, c, o) for s in (60, 104, 256, 1000) for c, o in ((s, 20), (s - 1, 0), (s + 1, 0), (7, 0), (64, 0), (4096, 1), (1000, 0), (6000, 0), (7000, 11), (8190, 3), (8191, 0), (8192, 5), (10000, 0))] + \
+            [(s, c, o) for s in (3000, 4500, 4800, 6000, 7500) for c, o in ((s, 20), (s - 1, 0), (64, 0), (1000, 0), (7000, 11), (8191, 0), (10000, 0))]
     for s, c, o in sweep:
         total = max(3 * 8192, 14 * s)          # at least 14 readouts, so that every phase of chunk vs readout boundaries occurs
         if not q and c in (7,) and s > 300:
             continue
-        out.append(Scenario(f"long history: readouts ~{s} octets, chunks of {c} from offset {o}, {total} octets", long_path(s, c, o, total, 1 if q else 2),
-                            bounds={"stream_octets": f">= {total}", "readout_size": s, "chunk": c, "first_chunk": o or c, "free": "one digit in each of the last readouts"},
+        out.append(Scenario(f"long history: readouts ~{s} octets, chunks of {c} from offset {o}, {total} octets", long_path(s, c, o, total, 1 if (q or s > 256) else 2),
+                            bounds={"stream_octets": f">= {total}", "readout_size": s, "chunk": c, "first_chunk": o or c, "free": "one digit in the last readout (thorough, readouts <= 256 octets: in each of the last two)"},
                             domains=("p1",), frontier=3, workers=1, assumptions=A, replay_cap=6))
     return out
 
